@@ -94,7 +94,8 @@ def run(chk):
     aa, ab = run_both(chk, 'alone', al, robust=True)
     for (m, s), x in zip(al, aa):
         k, v = outcome(x)
-        if k == 'ok': alone[(m, s)] = v
+        if k == 'ok' and not (m == 'stmt' and isinstance(v, dict) and list(v.keys()) == ['Empty']):     # a lone `;` is no structure to compare
+            alone[(m, s)] = v
     cases, meta = [], []
     HEAD = 'package p\n'
     for d in decls:
